@@ -32,7 +32,7 @@ class Check(BaseCheck):
 
     def correspond(self, drv, stats):
         fails = []
-        n_tri, n_tet, size = (24, 10, "small") if self.quick else (400, 150, "large")
+        n_tri, n_tet, size = (24, 18, "small") if self.quick else (400, 150, "large")
         rng = gen.rng_for(self.seed, "c06")
         for kind, stream in (("tri", gen.tria_stream(self.seed + 3, n_tri, size)), ("tet", gen.tet_stream(self.seed + 3, n_tet, size))):
             for kk, c in enumerate(stream):
@@ -43,8 +43,8 @@ class Check(BaseCheck):
                 f = gen.vfuncs(rng, v)[0]
                 X = rng.normal(size=(len(t), 3))
                 # dtype of the function / field handed to the implementation (the model sees the same values)
-                fdt = ["float64", "int64", "float64", "uint8", "float64", "float32"][kk % 6]
-                xdt = ["float64", "float64", "int64"][kk % 3]
+                fdt = str(rng.choice(["float64", "float64", "int64", "int64", "uint8", "float32"]))
+                xdt = str(rng.choice(["float64", "float64", "int64"]))
                 if fdt in ("int64", "uint8"):
                     f = np.round(4 * f / max(np.abs(f).max(), 1e-30)) + (4 if fdt == "uint8" else 0)
                 elif fdt == "float32":
